@@ -222,6 +222,7 @@ def wl_cms(ctx, rng, case):
         data = bytes(s)
         loaded = type(s).frombytes(data, **extra, **bl.kw_hash(hf))
         ctx.check(bytes(loaded) == data, f"export -> load -> export is not the identity {where}")
+        ctx.check(loaded.elements_added == total, f"the loaded copy reports another element total than the live sketch {where}", got=loaded.elements_added, want=total)
         if rng.random() < 0.25 and not extra:
             s = loaded  # "the structure can still be exported and loaded": the history goes on with the loaded copy
             ctx.count("histories_continued_on_a_loaded_copy")
@@ -350,8 +351,15 @@ def wl_cbf(ctx, rng, case):
         data = bytes(f)
         st = refimpl.parse_bloom(data, counting=True)
         ctx.check(st["cells"] == bl.cells_of(f) and st["added"] == total, f"exported cells/total differ from the live ones {where}")
-        ctx.check(bytes(P.CountingBloomFilter.frombytes(data, **bl.kw_hash(hf))) == data, f"export -> load -> export is not the identity {where}")
-        ctx.check(bytes(P.CountingBloomFilter(hex_string=f.export_hex(), **bl.kw_hash(hf))) == data, f"hex export -> load -> export is not the identity {where}")
+        loaded = P.CountingBloomFilter.frombytes(data, **bl.kw_hash(hf))
+        ctx.check(bytes(loaded) == data, f"export -> load -> export is not the identity {where}")
+        ctx.check(loaded.elements_added == total and bl.cells_of(loaded) == bl.cells_of(f), f"the loaded copy reports another element total / other cells than the live filter {where}",
+                  got=loaded.elements_added, want=total)
+        hexed = P.CountingBloomFilter(hex_string=f.export_hex(), **bl.kw_hash(hf))
+        ctx.check(bytes(hexed) == data and hexed.elements_added == total, f"hex export -> load -> export is not the identity {where}", got=hexed.elements_added, want=total)
+        if rng.random() < 0.25:
+            f = loaded  # "the structure can still be exported and loaded": the history goes on with the loaded copy
+            ctx.count("cbf_histories_continued_on_a_loaded_copy")
         saturated += any(c == U32MAX for c in bl.cells_of(f))
         ctx.count("cell_comparisons", m)
     if saturated:
